@@ -119,6 +119,7 @@ type Exec struct {
 	netCuts     int
 	netDribble  bool
 	netDgrams   [][]*term.T
+	netFrom     [][]*term.T
 	netWrites   [][]*term.T
 	netClosed   int
 	tickers     map[*Object]*Timer
@@ -449,6 +450,7 @@ func (e *Exec) resetPath(prefix []Decision) {
 	e.foreignInit = nil
 	e.knownRaces = nil
 	e.netStream, e.netDgrams, e.netWrites, e.netCuts, e.netDribble, e.netClosed = nil, nil, nil, 0, false, 0
+	e.netFrom = nil
 	for _, d := range prefix {
 		if d.Uncertain {
 			e.uncertain = true
